@@ -60,6 +60,11 @@ func main() {
 					{Name: "mgmt hashtable localhop=on pairs=none", MaxDepth: 2, MaxDev: 1},
 					{Name: "path nametree localhop=off -", MaxDepth: 2, MaxDev: -1},
 					{Name: "path nametree localhop=on -", MaxDepth: 2, MaxDev: -1},
+					// every history of routine commands, NOT de-duplicated on the canonical state: state a
+					// defect adds behind the tables (an aliased slice, a cached value) is in no canonical
+					// form, so the history that exposes it must not be pruned
+					{Name: "history search (no dedup) routine commands, hashtable", BuildName: "mgmt hashtable localhop=on pairs=none", MaxDepth: 4, MaxDev: 0, NoDedup: true},
+					{Name: "history search (no dedup) routine commands, nametree", BuildName: "mgmt nametree localhop=on pairs=none", MaxDepth: 4, MaxDev: 0, NoDedup: true},
 				}
 			}
 			var c []explore.Config
@@ -85,6 +90,9 @@ func main() {
 				// every two-command history over the whole alphabet
 				c = append(c, explore.Config{Name: "mgmt " + fib + " " + lh + " pairs=all two-commands", MaxDepth: 2, MaxDev: 2})
 			})
+			// routine histories without de-duplication (hidden state behind the tables)
+			c = append(c, explore.Config{Name: "history search (no dedup) routine commands, hashtable", BuildName: "mgmt hashtable localhop=on pairs=none", MaxDepth: 5, MaxDev: 0, NoDedup: true})
+			c = append(c, explore.Config{Name: "history search (no dedup) routine commands, nametree", BuildName: "mgmt nametree localhop=on pairs=none", MaxDepth: 4, MaxDev: 0, NoDedup: true})
 			// three-command histories with up to two one-field departures
 			c = append(c, explore.Config{Name: "mgmt nametree localhop=on pairs=none three-commands-two-deviations", MaxDepth: 3, MaxDev: 2})
 			return c
@@ -93,7 +101,7 @@ func main() {
 			if th {
 				return 24 * time.Minute
 			}
-			return 80 * time.Second
+			return 100 * time.Second
 		},
 		Rule: "BFS over histories of management command Interests delivered through the real internal face to the real management thread (receive loop of Thread.Run() generated verbatim from the current source, all six modules); alphabet = odometer over module/verb x ControlParameters fields (every single-field departure over twelve fields, every two-field departure over the fields the verb reads), damaged parameter components, arrival prefixes, unknown modules/verbs, dataset requests; after every transition: answer status vs three-valued expectation, tables vs reference model, all six datasets vs tables, one Interest sent through every face",
 		Assumptions: assumptions,
